@@ -34,6 +34,7 @@ func TestCheck(t *testing.T) {
 		nearCollisionIsolation(r)
 		defaultNameIsolation(r)
 		twoClustersIsolation(r)
+		sameUserDifferentGroupsIsolation(r)
 		partialSyncResize(r)
 
 		vkit.Sched.Enable(seed, 0.04, 0.02, 0.002)
@@ -53,9 +54,11 @@ func TestCheck(t *testing.T) {
 		r.Require(r.Counter("conc_attempts_at_limit_after_resize_down_returned") >= 50, "too few attempts at the limit after a resize-down had returned")
 		r.Require(r.Counter("conc_epoch_begins_by_toggle_or_readd") >= 50, "too few epochs begun by a type change / re-add")
 		r.Require(r.Counter("isolation_probe_rounds_while_hot_exhausted") >= 100, "too few isolation probes while the other schema was exhausted")
+		r.Require(r.Counter("partial_sync_cases_cluster-recreate-events-coalesced") >= 3 && r.Counter("partial_sync_recreate_same_generation") >= 3, "too few re-creations at the same generation handled on the existing cluster info")
 		r.Require(r.Counter("partial_sync_cases") >= 24 && r.Counter("partial_sync_cases_cluster-delete-recreate") >= 3 && r.Counter("partial_sync_cases_endpoint-unusable") >= 3, "too few partial-sync / re-create resize cases")
 		r.Require(r.Counter("seq_limiter_mode_flips") >= 100 && r.Counter("conc_limiter_mode_flips") >= 50, "too few limiter-mode flips")
 		r.Require(r.Counter("seq_boundary_limits(0_or_maxint32)") >= 50, "too few sequential histories with boundary limits")
+		r.Require(r.Counter("same_user_groups_cases_same_name") >= 9 && r.Counter("same_user_groups_exact_probes") >= 60, "too few same-user/different-groups isolation probes")
 		r.Require(r.Counter("two_clusters_cases") >= 8 && r.Counter("two_clusters_exact_probes") >= 64, "too few two-cluster isolation probes")
 		r.Require(r.Counter("default_name_isolation_cases_schema-less-policy") >= 6 && r.Counter("default_name_isolation_cases") >= 6, "too few system-default name isolation cases")
 		r.Require(r.Counter("near_collision_cases") >= 30 && r.Counter("near_collision_exact_probes") >= 250, "too few near-collision isolation probes")
@@ -65,6 +68,8 @@ func TestCheck(t *testing.T) {
 			r.Require(r.Counter("e2e_quiescence_429_observed") >= 20, "too few end-to-end quiescence probes reached the 429")
 			r.Require(r.Counter("e2e_panics_injected_while_writing_503") >= 5 && r.Counter("e2e_panics_injected_in_upgrade_hijack") >= 5, "too few panics were injected in the dispatcher's frame after admission")
 			r.Require(r.Counter("e2e_streams_ended_by_endpoint_removal") >= 3, "too few streams were torn down by an endpoint removal")
+			r.Require(r.Counter("e2e_recreate_coalesced_same_generation") >= 2, "too few end-to-end re-creations at the same generation")
+			r.Require(r.Counter("e2e_same_user_different_groups_scenarios") >= 2, "too few end-to-end same-user/different-groups scenarios")
 			r.Require(r.Counter("e2e_two_clusters_scenarios") >= 2, "too few end-to-end two-cluster scenarios")
 			r.Require(r.Counter("e2e_cluster_recreate_scenarios") >= 2 && r.Counter("e2e_limit_zero_scenarios") >= 2, "too few cluster re-create / limit-zero scenarios")
 			r.Require(r.Counter("e2e_storm_scenarios_reaching_the_limit") >= 2 && r.Counter("e2e_storm_refused") >= 20 && r.Counter("e2e_storm_updates") >= 20, "the end-to-end storm did not load the limiter")
